@@ -119,11 +119,12 @@ def pick_targs(rng, nparams, used):
         if r < 0.5 and nparams > 1:
             base.reverse()
         elif r < 0.8:
-            k = rng.randrange(nparams)
+            aux = [q for q in range(nparams) if base[q].startswith("aux")]
+            k = rng.choice(aux) if aux else rng.randrange(nparams)     # prefer the same-named class of the other module
             base[k] = {"auxA": "auxB", "auxB": "auxA", "int": "str", "str": "int", "listint": "int"}[base[k]]
         if tuple(base) not in used or rng.random() < 0.3:
             return base
-    return [rng.choice(["int", "str", "int", "str", "listint", "auxA", "auxB"]) for _ in range(nparams)]
+    return [rng.choice(["int", "str", "listint", "auxA", "auxB", "auxA", "auxB"]) for _ in range(nparams)]
 
 
 def gen_family(rng, max_classes=5, focus=None) -> dict:
